@@ -343,3 +343,63 @@ Proof.
       split; apply str_eqb_neq; assumption.
     + intros c m H. discriminate.
 Qed.
+
+(* ---------------- stacked middlewares: every request is counted exactly once, under its own tuple ---------------- *)
+Lemma labels_eqb_eq a b : labels_eqb a b = true <-> a = b.
+Proof.
+  revert b. induction a as [|[n v] a IH]; intros [|[n' v'] b]; simpl; try (split; [discriminate|congruence]); [tauto|].
+  rewrite !andb_true_iff, !str_eqb_eq, IH. split.
+  - intros [[-> ->] ->]. reflexivity.
+  - intros E. inversion E. auto.
+Qed.
+
+Lemma labels_eqb_refl a : labels_eqb a a = true.
+Proof. apply labels_eqb_eq. reflexivity. Qed.
+
+Lemma lookup_bump k ls st :
+  lookup_child ls (bump k st) = lookup_child ls st + (if labels_eqb k ls then 1 else 0).
+Proof.
+  induction st as [|[k' c] t IH]; simpl.
+  - destruct (labels_eqb k ls); lia.
+  - destruct (labels_eqb k' k) eqn:Ek; simpl.
+    + apply labels_eqb_eq in Ek. subst k'. destruct (labels_eqb k ls); lia.
+    + destruct (labels_eqb k' ls) eqn:El.
+      * apply labels_eqb_eq in El. subst k'.
+        destruct (labels_eqb k ls) eqn:E2; [apply labels_eqb_eq in E2; subst; rewrite labels_eqb_refl in Ek; discriminate|lia].
+      * exact IH.
+Qed.
+
+Lemma total_bump k st : total_count (bump k st) = total_count st + 1.
+Proof.
+  unfold total_count. induction st as [|[k' c] t IH]; simpl; [lia|].
+  destruct (labels_eqb k' k); simpl; lia.
+Qed.
+
+Lemma children_from_lookup lay extra qs : forall st ls,
+  lookup_child ls (children_from lay extra qs st) =
+  lookup_child ls st + Z.of_nat (List.length (filter (fun q => labels_eqb (req_labels lay extra q) ls) qs)).
+Proof.
+  unfold children_from. induction qs as [|q qs IH]; intros st ls; simpl; [lia|].
+  rewrite IH, lookup_bump. destruct (labels_eqb (req_labels lay extra q) ls); simpl List.length; lia.
+Qed.
+
+Lemma children_from_total lay extra qs : forall st,
+  total_count (children_from lay extra qs st) = total_count st + Z.of_nat (List.length qs).
+Proof.
+  unfold children_from. induction qs as [|q qs IH]; intros st; simpl; [lia|].
+  rewrite IH, total_bump. simpl List.length. lia.
+Qed.
+
+Lemma stacked_counted_once_lemma : forall lay extra qs,
+  total_count (children lay extra qs) = Z.of_nat (List.length qs) /\
+  (forall ls, lookup_child ls (children lay extra qs) =
+              Z.of_nat (List.length (filter (fun q => labels_eqb (req_labels lay extra q) ls) qs))).
+Proof.
+  intros lay extra qs. unfold children. split.
+  - rewrite children_from_total. reflexivity.
+  - intros ls. rewrite children_from_lookup. reflexivity.
+Qed.
+
+Lemma stack_independent_lemma : forall lays extra qs n lay,
+  nth_error lays n = Some lay -> nth_error (stack_children lays extra qs) n = Some (children lay extra qs).
+Proof. intros lays extra qs n lay H. unfold stack_children. rewrite nth_error_map, H. reflexivity. Qed.
